@@ -80,28 +80,33 @@ Definition decide (dom : bool) (clause : Z) (model_ok : bool) (spec : option (da
 (* ------------------------------------------------------------------ concatenate / stack
    case: (op (0 concatenate, 1 stack), axis (None only for concatenate), compressed_axes argument,
           members as the implementation saw them, result)
-   clauses: 11 every member is a GCXS and axis=None (the GCXS joiner does not support it);
-   18 concatenate with axis=None and a DOK member (DOK has no flatten); 19 stack of 0-d members
-   that are not all COO (0-d DOK / GCXS cannot be converted / reshaped) *)
+   members of any format, any ndim (0-d included for stack), axis=None for concatenate; members whose
+   shapes do not fit must be rejected (NumPy raises, the code raises the generated mismatch exception) *)
 Definition join_case := (Z * option Z * option (list Z) * list sarr * sarr)%type.
 
 Definition gcxs_members (ms : list sarr) : option (list (gcxs Z)) :=
   all_some (map (fun a => match a with SGcxs g => Some g | _ => None end) ms).
 
+Definition pred1 (p : pyv -> res pyv) (a : Z) : bool :=
+  match p (VInt a) with Ok v => truthy v | Raise _ => false end.
+
+(* NumPy's own admissibility: same shapes off the axis (concatenate), identical shapes (stack) *)
 Definition join_spec (op : Z) (axis : option Z) (a : coo Z) (r : list (coo Z)) : option (darr Z) :=
   let nd := Z.of_nat (length (c_shape a)) in
   if op =? 0 then
     match axis with
     | None => Some (np_concatenate_none (darr_of a) (map darr_of r))
     | Some ax => match np_norm_axis ax nd with
-                 | Some k => Some (np_concatenate k (darr_of a) (map darr_of r))
+                 | Some k => if forallb (fun x => same_off_axis k (c_shape a) (c_shape x)) r
+                             then Some (np_concatenate k (darr_of a) (map darr_of r)) else None
                  | None => None end
     end
   else
     match axis with
     | None => None
     | Some ax => match np_norm_axis ax (nd + 1) with
-                 | Some k => Some (np_stack k (darr_of a) (map darr_of r))
+                 | Some k => if forallb (fun x => idx_eqb (c_shape a) (c_shape x)) r
+                             then Some (np_stack k (darr_of a) (map darr_of r)) else None
                  | None => None end
     end.
 
@@ -116,28 +121,22 @@ Definition judge_join (c : join_case) : Z :=
     else
       let spec := join_spec op axis a rest in
       let all_g := forallb is_gcxs members in
-      let one_d := (length (c_shape a) =? 1)%nat in
-      let gcxs_path := all_g && negb one_d in
+      (* the GCXS joiners hand low-dimensional members (after flattening for axis=None) to the COO joiner *)
+      let nd_eff := match axis with None => 1 | Some _ => Z.of_nat (length (c_shape a)) end in
+      let coo_path := if op =? 0 then pred1 site_gcxs_concatenate_coo_path nd_eff
+                      else pred1 site_gcxs_stack_coo_path nd_eff in
       let model_ok :=
-        if gcxs_path then
-          match gcxs_members members, axis with
-          | Some gs, Some ax =>
-            model_gcxs_ok (if op =? 0 then gcxs_concatenate_src Z Z.eqb 0 ax caxes gs
-                           else gcxs_stack_src Z Z.eqb 0 Z.add ax caxes gs) r
-          | _, _ => true      (* all-GCXS with axis=None: not modelled (clause 11) *)
-          end
-        else
+        match all_g && negb coo_path, gcxs_members members, axis with
+        | true, Some gs, Some ax =>
+          model_gcxs_ok (if op =? 0 then gcxs_concatenate_src Z Z.eqb 0 ax caxes gs
+                         else gcxs_stack_src Z Z.eqb 0 Z.add ax caxes gs) r
+        | _, _, _ =>
           model_coo_ok (if op =? 0 then coo_concatenate_src Z Z.eqb 0 Z.add axis ms
                         else match axis with
                              | Some ax => coo_stack_src Z Z.eqb 0 Z.add ax ms
-                             | None => Raise TypeError end) r in
-      let axis_none := match axis with None => true | _ => false end in
-      let clause :=
-        if all_g && axis_none then 11
-        else if (op =? 0) && axis_none && existsb is_dok members then 18
-        else if (op =? 1) && (length (c_shape a) =? 0)%nat && negb (forallb is_coo members) then 19
-        else 0 in
-      decide (clause =? 0) clause model_ok spec (c_fill a) r
+                             | None => Raise TypeError end) r
+        end in
+      decide true 0 model_ok spec (c_fill a) r
   end.
 
 (* ------------------------------------------------------------------ kernel level: the indptr splice
@@ -150,7 +149,7 @@ Definition judge_splice (c : splice_case) : Z :=
 
 (* ------------------------------------------------------------------ triu / tril
    case: (which (0 triu, 1 tril), k, input, result)
-   clause 12: input is not a COO (the functions read x.coords) *)
+   (input of any format: the functions convert with asCOO) *)
 Definition tri_case := (Z * Z * sarr * sarr)%type.
 
 Definition judge_tri (c : tri_case) : Z :=
@@ -159,20 +158,21 @@ Definition judge_tri (c : tri_case) : Z :=
   | None => 9
   | Some x =>
     let nd := length (c_shape x) in
+    let conv := if which =? 0 then site_triu_converts_input else site_tril_converts_input in
     let m := if which =? 0 then coo_triu_src Z Z.eqb 0 Z.add x k else coo_tril_src Z Z.eqb 0 Z.add x k in
+    if negb conv && negb (is_coo inp) then 2 else
     if negb (c_fill x =? 0) || (nd <? 2)%nat then
       (* documented rejections (ValueError for a non-zero fill, NotImplementedError below 2-d):
          the implementation must do what the model does *)
-      if is_coo inp then (if model_coo_ok m r then 0 else 1)
-      else match r with SExc _ => 0 | _ => 1 end
+      if model_coo_ok m r then 0 else 1
     else
       let spec := if which =? 0 then np_triu 0 k (darr_of x) else np_tril 0 k (darr_of x) in
-      decide (is_coo inp) 12 (model_coo_ok m r) (Some spec) 0 r
+      decide true 0 (model_coo_ok m r) (Some spec) 0 r
   end.
 
 (* ------------------------------------------------------------------ diagonal
-   case: (offset, axis1, axis2, input, result); axis1, axis2 in range (equal axes: NumPy raises).
-   clauses: 15 diagonal_nonsquare (extents of the two axes differ), 12 input is not a COO *)
+   case: (offset, axis1, axis2, input of any format, result); axis1, axis2 in range (equal axes: NumPy raises).
+   clause 15: diagonal_nonsquare (extents of the two axes differ: documented ValueError) *)
 Definition diag_case := (Z * Z * Z * sarr * sarr)%type.
 
 Definition judge_diag (c : diag_case) : Z :=
@@ -183,13 +183,11 @@ Definition judge_diag (c : diag_case) : Z :=
     let nd := Z.of_nat (length (c_shape x)) in
     match np_norm_axis axis1 nd, np_norm_axis axis2 nd with
     | Some a1, Some a2 =>
+      if negb site_diagonal_converts_input && negb (is_coo inp) then 2 else
       let m := coo_diagonal_src Z Z.eqb 0 Z.add x offset axis1 axis2 in
-      let model_ok := if is_coo inp then model_coo_ok m r else true in
-      if (a1 =? a2)%nat then decide (is_coo inp) 12 model_ok None (c_fill x) r else
-      let clause :=
-        if negb (is_coo inp) then 12
-        else if negb (diagonal_nonsquare (c_shape x) a1 a2) then 15
-        else 0 in
+      let model_ok := model_coo_ok m r in
+      if (a1 =? a2)%nat then decide true 0 model_ok None (c_fill x) r else
+      let clause := if negb (diagonal_nonsquare (c_shape x) a1 a2) then 15 else 0 in
       (* the Spec's fill is the input's fill (np.diagonal keeps every value) *)
       decide (clause =? 0) clause model_ok (Some (np_diagonal offset a1 a2 (darr_of x))) (c_fill x) r
     | _, _ => 9
